@@ -31,7 +31,8 @@ pub struct Case {
 }
 
 pub fn family(tier: Tier, seed: u64) -> Vec<SysSpec> {
-    let mut out = vec![];
+    // hand-built dead-end systems first (the sweeps reach them only at deviation 3)
+    let mut out = dead_end_extras();
     let quick_sk = ["K1", "K2", "K3", "K5", "K7", "K4", "K6"];
     for name in quick_sk {
         let sk = skeleton_generated(name, false);
